@@ -66,6 +66,14 @@ def generate(repo: Repo, reg: Registry, c: Contract) -> tuple[list[VC], Verifier
         repo.load(m)
     eng.cur_module = module
     eng.cur_class = ci
+
+    def lca(a, b):
+        for c in repo.mro(a):
+            if c in repo.mro(b):
+                return c
+        return None
+
+    T.CLASS_LCA = lca
     st = St({}, {}, z3.Int("alloc0"), ())
     st.pc = (st.alloc >= 0,)
     tys = eng.contract_param_types(c, fn, ci)
@@ -77,7 +85,7 @@ def generate(repo: Repo, reg: Registry, c: Contract) -> tuple[list[VC], Verifier
         v = SV(z3.Const("p_" + a.arg, V), ty)
         st.loc[a.arg] = v
         if ty.k != "any":
-            st.pc = st.pc + (eng.has_type(v.term, ty, st),)
+            st.pc = st.pc + (eng.deep_type(v.term, ty, st),)
     if ci is not None and fn.name not in ci.staticmethods and fn.name not in ci.classmethods and fn.args.args:
         selfn = fn.args.args[0].arg
         sty = st.loc[selfn].ty
@@ -93,6 +101,7 @@ def generate(repo: Repo, reg: Registry, c: Contract) -> tuple[list[VC], Verifier
     # vacuity guard: the precondition must be satisfiable
     eng.emit("requires.cover", "precondition is satisfiable (vacuity guard)", st, z3.BoolVal(True), "cover", fn.lineno, cover=True)
     params0 = dict(st.loc)
+    eng.loop_ctx = [(eng.loop_ordinals(fn), c.loops, "")]
     outs = eng.exec_block(fn.body, st)
     allowed = frame_keys_allowed(c)
     n_ret = 0
